@@ -36,7 +36,7 @@ const struct sockaddr *g_addr_arg; socklen_t g_addr_len; int g_addr_family;
 
 #define SOCK_GHOSTS g_so_error_read_at_polls, g_errno, g_native, g_polls, g_xfers, g_closes, g_accepts, g_connects, g_sockopts, g_xfer_ok, g_xfer_count, g_xfer_errno, \
 	g_last_fail_poll, g_poll_rc, g_new_fd, g_new_fd_live, g_new_fd_cloexec, g_new_fd_nonblock, g_send_flags, g_addr_arg, g_addr_len, g_addr_family, g_fd_live, g_close_failed, g_binds, g_listens, g_shutdowns, g_listen_backlog_arg, g_shutdown_how, \
-	g_socket_calls, g_socket_type_arg, g_setsockopt_name, g_setsockopt_val, g_setsockopt_ok
+	g_socket_calls, g_socket_type_arg, g_setsockopt_name, g_setsockopt_val, g_setsockopt_ok, g_getsockname_calls, g_getpeername_calls, g_name_ok
 #define SOCK_INIT (g_native == 0 && g_polls == 0 && g_xfers == 0 && g_closes == 0 && g_accepts == 0 && g_connects == 0 && g_sockopts == 0 && \
 	!g_xfer_ok && !g_last_fail_poll && !g_new_fd_live && !g_new_fd_cloexec && !g_new_fd_nonblock && !g_close_failed && \
 	g_binds == 0 && g_listens == 0 && g_shutdowns == 0 && g_socket_calls == 0)
@@ -132,8 +132,10 @@ int setsockopt (int fd, int level, int optname, const void *optval, socklen_t op
 	return 0;
 }
 unsigned char g_name_bytes[sizeof (struct sockaddr_storage)]; socklen_t g_name_len;
+unsigned long g_getsockname_calls, g_getpeername_calls; _Bool g_name_ok;   /* which of the two name calls ran, and whether the last one succeeded */
 static int name_result (int fd, struct sockaddr *addr, socklen_t *alen)
 {
+	g_name_ok = 0;
 	INC (g_native);
 	ENV_REQ ((fd == g_sock_fd && g_fd_live) || (fd == g_new_fd && g_new_fd_live), "getsockname/getpeername on a live descriptor of the library");
 	ENV_REQ (addr != NULL && alen != NULL && *alen >= sizeof (struct sockaddr_storage), "room for any address");
@@ -141,10 +143,11 @@ static int name_result (int fd, struct sockaddr *addr, socklen_t *alen)
 	__CPROVER_assume (g_name_len <= sizeof (struct sockaddr_storage));
 	memcpy (addr, g_name_bytes, sizeof (struct sockaddr_storage));
 	*alen = g_name_len;
+	g_name_ok = 1;
 	return 0;
 }
-int getsockname (int fd, struct sockaddr *addr, socklen_t *alen) { return name_result (fd, addr, alen); }
-int getpeername (int fd, struct sockaddr *addr, socklen_t *alen) { return name_result (fd, addr, alen); }
+int getsockname (int fd, struct sockaddr *addr, socklen_t *alen) { INC (g_getsockname_calls); return name_result (fd, addr, alen); }
+int getpeername (int fd, struct sockaddr *addr, socklen_t *alen) { INC (g_getpeername_calls); return name_result (fd, addr, alen); }
 unsigned long g_binds, g_listens, g_shutdowns; int g_listen_backlog_arg, g_shutdown_how;
 static int plain_result (void) { if (nondet_bool ()) { FAIL_ANY_ERRNO; g_last_fail_poll = 0; return -1; } return 0; }
 int bind (int fd, const struct sockaddr *addr, socklen_t alen) { NATIVE (fd); INC (g_binds); g_addr_arg = addr; g_addr_len = alen; g_addr_family = (addr != NULL && alen >= sizeof (sa_family_t)) ? addr->sa_family : -1; return plain_result (); }
